@@ -30,7 +30,7 @@ from . import property_harness as PH
 
 sv = z3.StringVal
 O, DP, IP = 'DBusObject', 'DBusProperty', 'IProperty'
-CODES = 'ybnqiuxtgo'
+CODES = 'ybnqiuxtdsgo'          # every basic type of the DBus grammar that a variant can carry by value (the statement's 'basic'; 'h' travels out of band)
 
 
 def _getProperty(self, interfaceName, propertyName): pass
